@@ -17,7 +17,8 @@ RULE = (
     "configurations: clean_up in {None, True, False} x allow_incomplete x "
     "wait (only on complete crops) x farmer in {none, Runner, Harvester, "
     "Harvester without a data name (memory only), Sampler} x injected failure stage in {none, incomplete crop, unreadable "
-    "result (truncated / garbage file), over-long result with a falsy surplus "
+    "result (truncated / garbage file), a readable result one entry short, "
+    "over-long result with a falsy surplus "
     "entry, wrong output description (var_names "
     "count, missing var_dims), harvester merge conflict with existing data, "
     "save error (data directory missing, injected OSError in the save call)} "
@@ -44,6 +45,7 @@ FAILURES = {
     "incomplete": FARMERS,
     "unreadable": FARMERS,
     "overlong": FARMERS,
+    "short": FARMERS,
     "wrong_names": ["runner", "harvester", "harvester_mem"],
     "missing_dims": ["runner", "harvester", "harvester_mem"],
     "conflict": ["harvester", "harvester_mem"],
@@ -153,6 +155,13 @@ def run_case(case):
             with open(p, "wb") as f:
                 f.write(data[:len(data) // 2] if case["victim"] % 2
                         else b"garbage" + data[7:])
+        if failure == "short":
+            # a readable result holding fewer entries than its batch
+            p = crops.result_path(root, "c12", victim)
+            with open(p, "rb") as f:
+                res_ = pickle.load(f)
+            with open(p, "wb") as f:
+                pickle.dump(tuple(res_)[:-1], f)
         if failure == "overlong":
             # a result holding more entries than its batch (the situation
             # check_bad exists for); the surplus entry is falsy
@@ -252,7 +261,7 @@ def run_case(case):
             with under_test("correct the cause"):
                 if failure == "incomplete":
                     crop.grow_missing()
-                elif failure in ("unreadable", "overlong"):
+                elif failure in ("unreadable", "overlong", "short"):
                     crop.check_bad()
                     crop.grow_missing()
                 elif failure in ("wrong_names", "missing_dims"):
